@@ -247,4 +247,33 @@ PROPS = {
         classify=classify_srv, nontrivial=nontrivial_srv, finding_key=no_key, rule="cases = corpus (witnesses of repaired defects first) + exhaustive sub-domains + seeded sessions of 1..12 (quick) / 1..40 (thorough) requests mixing valid (3/4), malformed (grammar-aware mutations), exception-raising and wrong-unit requests over random unit maps (0..4 units, per-address read/write exceptions), delivered frame-by-frame or under random chunkings, with commands injected; distinct = distinct case line; non-trivial = the session produced a reply or an application call",
         assumptions=["a serial bus delivers every frame to every device; framing is by the length rule of C06"],
     ),
+    "C09": dict(
+        audit_modules=["RodbusModel.Audit.C09"],
+        required_theorems=["Rodbus.C09.versions_correct", "Rodbus.C09.tls_table_correct", "Rodbus.C09.admit_iff",
+                           "Rodbus.C09.client_admit_iff", "Rodbus.C09.role_is_certificate_role", "Rodbus.C09.no_role_refused",
+                           "Rodbus.C09.negotiated_at_least_min", "Rodbus.C09.negotiation_succeeds"],
+        suites=[dict(gen="tls", n=(0, 0), jobs=16,
+                     exhaustive="thorough: the full grid {min 1.2,1.3} x {authority,self-signed} x {authz,no authz} x {client,server} x peer "
+                                "versions {1.2,1.3,both} x certificate kinds (246 handshakes); quick: all version cells with valid "
+                                "certificates + half of the certificate kinds (about 50 handshakes)")],
+        level_text="Proof (rodbus's own logic): versions_correct (a version is enabled iff it is >= the configured minimum) and tls_table_correct "
+                   "(the MinTlsVersion -> ProtocolVersions table regenerated from tcp/tls/client.rs equals the model's), admit_iff / "
+                   "client_admit_iff (a session exists iff the peer offers a version >= min, its certificate validates under the configured mode "
+                   "and - in authorization mode - carries exactly one role), role_is_certificate_role, no_role_refused, no_authz_no_role, "
+                   "negotiated_at_least_min, negotiation_succeeds, cert_accepted_meaning. Exploration (the TLS library's part): real rodbus TLS "
+                   "servers and clients against independent openssl s_client / s_server peers restricted to TLS 1.2, 1.3 or both, with minted "
+                   "certificates (valid, wrong authority, wrong name, CN-only, expired, not yet valid, role-less, other role, none, impostor "
+                   "self-signed); observed: handshake outcome, negotiated version, role string seen by the authorization handler, handler calls.",
+        level_note="Partial: certificate path validation, signature and validity checks, name matching and version negotiation are done by "
+                   "rustls / webpki / sfio-rustls-config; in the theorems they are attributes of the presented certificate and the rule 'highest "
+                   "common version'; they are exercised by the grid, not proved. A certificate with two role extensions could not be minted with "
+                   "the openssl CLI and is covered by the theorem only. Trusted: openssl 3.5 CLI as independent peer; certificates in /verif/certs "
+                   "(tools/mint_certs.sh), valid until 2070.",
+        technique="Lean 4 proof of the admission logic + generated version table + handshake grid against openssl peers",
+        classify=lambda c, i: [i.split(" ")[0], " ".join(c.split(" ")[1:4])],
+        nontrivial=lambda c, i: True, finding_key=no_key,
+        rule="cases = corpus (witnesses of the repaired version table first) + the grid; every handshake is non-trivial; distinct = distinct case line",
+        assumptions=["system clock between 2021 and 2069 (expired / not-yet-valid test certificates)",
+                     "the TLS library negotiates the highest version enabled by both sides"],
+    ),
 }
